@@ -13,6 +13,7 @@ package rules
 
 import (
 	"fmt"
+	"go/constant"
 	"go/token"
 	"go/types"
 	"strings"
@@ -100,20 +101,96 @@ func emRoot(fn *ssa.Function, names map[*ssa.Parameter]string) *emEnv {
 // emReturn evaluates the byte slice fn returns on success.
 func (env *emEnv) emReturn() ([]emTerm, error) {
 	rets := fxSuccessReturns(env.fn)
-	var val ssa.Value
+	var vals []ssa.Value
+	var at []*ssa.Return
 	for _, r := range rets {
 		if len(r.Results) == 0 {
 			continue
 		}
-		if val != nil && val != r.Results[0] {
-			return nil, emFail("%s has several success returns", env.fn.Name())
+		dup := false
+		for _, v := range vals {
+			if v == r.Results[0] {
+				dup = true
+			}
 		}
-		val = r.Results[0]
+		if !dup {
+			vals = append(vals, r.Results[0])
+			at = append(at, r)
+		}
 	}
-	if val == nil {
+	if len(vals) == 0 {
 		return nil, emFail("%s has no success return", env.fn.Name())
 	}
-	return env.buf(val)
+	if len(vals) == 1 {
+		return env.buf(vals[0])
+	}
+	// several success returns: one full emission, the others early exits that
+	// are taken only when the list(s) still to be written are empty and that
+	// have emitted exactly what precedes those (then empty) repetitions
+	terms := make([][]emTerm, len(vals))
+	main := 0
+	for i, v := range vals {
+		t, err := env.buf(v)
+		if err != nil {
+			return nil, err
+		}
+		terms[i] = t
+		if len(t) > len(terms[main]) {
+			main = i
+		}
+	}
+	for i, t := range terms {
+		if i == main {
+			continue
+		}
+		full := terms[main]
+		if len(t) >= len(full) || emString(t) != emString(full[:len(t)]) {
+			return nil, emFail("%s has several success returns with different emissions", env.fn.Name())
+		}
+		for _, rest := range full[len(t):] {
+			if rest.Kind != "REP" {
+				return nil, emFail("%s returns early without emitting %s", env.fn.Name(), rest.String())
+			}
+			if !env.emptyAt(at[i].Block(), rest.Over) {
+				return nil, emFail("%s returns early, skipping the elements of %s, on a path where that list is not known to be empty", env.fn.Name(), rest.Over)
+			}
+		}
+	}
+	return terms[main], nil
+}
+
+// emptyAt: on entry to block b a dominating branch established len(X) == 0
+// for the list described as over.
+func (env *emEnv) emptyAt(b *ssa.BasicBlock, over string) bool {
+	for _, f := range ir.FactsAt(b) {
+		bin, ok := f.Cond.(*ssa.BinOp)
+		if !ok {
+			continue
+		}
+		x, y := bin.X, bin.Y
+		op := bin.Op
+		if fxConst(x) != nil {
+			x, y = y, x
+			op = map[token.Token]token.Token{token.LSS: token.GTR, token.GTR: token.LSS, token.LEQ: token.GEQ, token.GEQ: token.LEQ, token.EQL: token.EQL, token.NEQ: token.NEQ}[op]
+		}
+		a, isLen := lenArg(x)
+		k := fxConst(y)
+		if !isLen || k == nil {
+			continue
+		}
+		d, err := env.desc(a)
+		if err != nil || d != over {
+			continue
+		}
+		// the fact (len op k) == f.Truth must imply len == 0
+		holds := func(n int64) bool {
+			return constant.Compare(constant.MakeInt64(n), op, k) == f.Truth
+		}
+		if holds(0) && !holds(1) && !holds(2) && !holds(1<<40) {
+			return true
+		}
+	}
+	return false
 }
 
 func isByteSlice(t types.Type) bool {
